@@ -190,6 +190,10 @@ fn derivative_failure_check<T: Sc>(case: &crate::gen::ProblemCase, out: &mut Out
 
 fn run<T: Sc>(case: &TrajCase) -> Check {
     let mut out = Outcome::default();
+    // the complex-valued companion problem (varpro's problems are generic over ComplexField)
+    if let Some(cc) = &case.cplx {
+        super::cplx::check(cc, super::cplx::Claim::Jacobian, &mut out)?;
+    }
     let eps = effective_eps::<T>(case.base.eps);
     let mut skipped: Vec<String> = vec![];
     let mut nontrivial = false;
